@@ -1556,7 +1556,12 @@ bool WFXMLScanner::scanAttValue(const XMLCh* const attrName
             if (nextCh == quoteCh)
             {
                 if (curReader == fReaderMgr.getCurrentReaderNum())
+                {
+                    // an unpaired leading surrogate directly before the closing quote
+                    if (gotLeadingSurrogate)
+                        emitError(XMLErrs::Expected2ndSurrogateChar);
                     return true;
+                }
 
                 // Watch for spillover into a previous entity
                 if (curReader > fReaderMgr.getCurrentReaderNum())
